@@ -1593,6 +1593,9 @@ func (s *source) loopShareFetch() {
 					return
 				}
 				fetched := s.shareFetch(doneFetch)
+				if !fetched {
+					verifBusyYield() // no-op without the verif build tag
+				}
 				// If we fetched, any pending acks from this source's
 				// cursors were piggybacked on the request. Stop the
 				// ack timer; if more acks arrive between here and
